@@ -184,6 +184,20 @@ func Inject(m *Module, r *run.Rng, rule string) (inj Injection, ok bool) {
 	switch rule {
 	case "undeclared-identifier":
 		if r.Chance(1, 4) {
+			// as a component of a module-scope composite constant (vector / matrix / array constructor arguments)
+			vs := []string{"const zz_c%[1]d = vec3<f32>(1.0, zz_undeclared_%[1]d, 2.0);", "const zz_c%[1]d: vec2<i32> = vec2<i32>(zz_undeclared_%[1]d, 4);",
+				"const zz_c%[1]d = mat2x2<f32>(vec2<f32>(1.0, 2.0), vec2<f32>(zz_undeclared_%[1]d, 4.0));", "const zz_c%[1]d = array<u32, 3>(1u, 2u, zz_undeclared_%[1]d);",
+				"const zz_c%[1]d = array<vec2<f32>, 2>(vec2<f32>(1.0), vec2<f32>(zz_undeclared_%[1]d, 0.5));"}
+			old := m.Decls
+			di := r.Intn(len(old) + 1)
+			text := fmt.Sprintf(vs[r.Intn(len(vs))], n)
+			inj.Variant = "module-const-component: " + text
+			m.Decls = append(append(append([]Decl{}, old[:di]...), Decl{Raw: text}), old[di:]...)
+			inj.Undo = func() { m.Decls = old }
+			inj.Decl, inj.Ctx = di, "module-scope"
+			return inj, true
+		}
+		if r.Chance(1, 4) {
 			// as assignment target
 			st, ok := pickStmt()
 			if !ok {
